@@ -149,7 +149,8 @@ def run(ctx, prop):
     import concurrent.futures
     with concurrent.futures.ThreadPoolExecutor(4) as ex:
         f_mc = ex.submit(lambda: list(_mc(ctx, prop)))
-        f_bk = ex.submit(_buckets, ctx) if prop == 'C02' else None
+        f_bk = ex.submit(_buckets, ctx) if prop == 'C02' else (
+            ex.submit(_reboot, ctx) if prop == 'C03' else None)
         f_gen = ex.submit(_gen, ctx, prop)
         f_l2 = ex.submit(_l2_traces, ctx, prop)
         cex = f_mc.result()
@@ -185,6 +186,29 @@ def run(ctx, prop):
         raise tlc.MachineryError('%d recorded traces could not be evaluated by the trace spec '
                                  '(first: %s)' % (len(unjudged), unjudged[0]['tid']))
     return rc
+
+
+def _reboot(ctx):
+    """Extension beyond the listed properties: where valid_until comes from
+    (Partition / RebootBucket), Reboot.tla model-checked and bound to the real
+    Partition by recorded operation sequences (clauses ext.reboot.*: DRIFT)."""
+    from . import reboot_driver as rd
+    res = tlc.mc(sc.SPEC_DIR, 'MC_Reboot', 'MC_Reboot.cfg', coverage=True, workers=4,
+                 timeout=200 if ctx.quick else 900)
+    ctx.add_mc('Reboot.tla (extension: reboot-date assignment)', res, need_actions=['Add', 'Tick', 'Remove'])
+    if res['violated']:
+        ctx.log('Reboot.tla: %s violated in the MODEL' % res['violated'])
+    rng = random.Random(ctx.seed * 4099)
+    traces = [dict(tid='reboot:%d' % k, lines=rd.replay(rd.gen(rng, rng.choice([4, 8, 12]))))
+              for k in range(150 if ctx.quick else 3000)]
+    verdicts, stats = rd.validate(traces)
+    ctx.cmds.append(stats['cmd'])
+    bad = sum(1 for v in verdicts if v['fail'])
+    ctx.notes.append(dict(reboot_conformance=dict(traces=len(traces), steps=len(verdicts), unexplained=bad)))
+    if bad:
+        ctx.drift += bad
+        print('DRIFT: %d recorded Partition operations are not steps of Reboot.tla / miss its guarantees '
+              '(extension beyond the listed properties; not a violation)' % bad)
 
 
 def _buckets(ctx):
